@@ -268,6 +268,24 @@ int main(int argc, char** argv)
                 }
             }
         }
+        {   /* hand-made frames (independent of the LZ4F compressor): block checksum on, one literal-only COMPRESSED block whose size is
+             * at / just below the declared maximum (legal, but the compressor itself would store such a block raw) */
+            int ds; static const int below[] = {0, 1, 2, 3, 4, 5, 100};
+            for (ds = 0; ds < 7; ds++) {
+                size_t S = 65536 - (size_t)below[ds], L, bl = 0; u8* fr = xalloc(S + 64); size_t p = 0; u32 c; u8 hc;
+                for (L = S; L > 0; L--) { size_t ext = L >= 15 ? (L - 15) / 255 + 1 : 0; if (1 + ext + L == S) break; }
+                if (!L) { free(fr); continue; }
+                fr[p++] = 0x04; fr[p++] = 0x22; fr[p++] = 0x4D; fr[p++] = 0x18; fr[p++] = 0x40 | 0x20 | 0x10; fr[p++] = 4 << 4;
+                hc = (u8)(XXH32(fr + 4, 2, 0) >> 8); fr[p++] = hc;
+                c = (u32)S; memcpy(fr + p, &c, 4); p += 4;
+                bl = p; fr[p++] = 0xF0; { size_t v = L - 15; while (v >= 255) { fr[p++] = 255; v -= 255; } fr[p++] = (u8)v; }
+                { size_t k; for (k = 0; k < L; k++) fr[p++] = (u8)(k * 7 + ds); }
+                c = XXH32(fr + bl, p - bl, 0); memcpy(fr + p, &c, 4); p += 4;
+                memset(fr + p, 0, 4); p += 4;
+                { LZ4F_dctx* fresh; LZ4F_createDecompressionContext(&fresh, LZ4F_VERSION); decode_case(fresh, fr, p, 0, 0, 1); LZ4F_freeDecompressionContext(fresh); }   /* a fresh context sizes its buffers for THIS frame */
+                free(fr);
+            }
+        }
         {   /* skippable frames */
             for (i = 0; i < 16; i++) { u8 s[64]; u32 magic = 0x184D2A50u + (u32)i; u32 sz = rndn(40); size_t k; memcpy(s, &magic, 4); memcpy(s + 4, &sz, 4); for (k = 0; k < sz; k++) s[8 + k] = (u8)rnd();
                 decode_case(dctx, s, 8 + sz, 0, 0, thorough); if (sz) decode_case(dctx, s, 8 + sz - 1, 0, 0, thorough); }
